@@ -52,19 +52,32 @@ fn push_instr(r: &mut Rng, p: &Pools, b: &mut il::Block) {
         let ms: Vec<&(String, usize)> = p.all.iter().filter(|x| x.1 % 8 == 0).collect();
         let d = r.pick(&ms);
         b.load(il::scalar(d.0.clone(), d.1), gen_addr(r, o));
-    } else if o.intrinsics && pick < 27 {
+    } else if o.intrinsics && pick < 36 {
         let declared = r.chance(2, 3);
         let rd = o.scalars[r.below(o.scalars.len() as u64) as usize].clone();
         let intr = Intrinsic::new(
             if declared { "declared" } else { "syscall" },
             "intrinsic",
             vec![il::expr_scalar(rd.0.clone(), rd.1)],
-            if declared { Some(vec![il::expr_scalar(dst.0.clone(), dst.1)]) } else { None },
-            if declared { Some(vec![gen_expr(r, o, rd.1, 1)]) } else { None },
+            // declared effects: one or two written expressions (sometimes the same scalar twice: two versions in
+            // one operation), one or two read expressions
+            if declared {
+                let mut w = vec![il::expr_scalar(dst.0.clone(), dst.1)];
+                if r.chance(1, 3) {
+                    let d2 = if r.chance(1, 3) { dst.clone() } else { p.all[r.below(p.all.len() as u64) as usize].clone() };
+                    w.push(il::expr_scalar(d2.0, d2.1));
+                }
+                Some(w)
+            } else { None },
+            if declared {
+                let mut v = vec![gen_expr(r, o, rd.1, 1)];
+                if r.chance(1, 3) { v.push(gen_expr(r, o, dst.1, 1)); }
+                Some(v)
+            } else { None },
             vec![0x0f, 0x05],
         );
         b.intrinsic(intr);
-    } else if pick < 32 {
+    } else if pick < 40 {
         b.nop();
     } else {
         b.assign(il::scalar(dst.0.clone(), dst.1), gen_expr(r, o, dst.1, o.expr_depth));
@@ -122,7 +135,7 @@ fn skeleton(r: &mut Rng, shape: u64) -> (Vec<Vec<usize>>, &'static str) {
     }
 }
 
-fn build(r: &mut Rng, p: &Pools, sk: &[Vec<usize>], addr0: u64) -> Function {
+fn build(r: &mut Rng, p: &Pools, sk: &[Vec<usize>], addr0: u64, gaps: bool) -> Function {
     let mut cfg = ControlFlowGraph::new();
     let mut addr = addr0;
     for h in 0..sk.len() {
@@ -137,6 +150,12 @@ fn build(r: &mut Rng, p: &Pools, sk: &[Vec<usize>], addr0: u64) -> Function {
                 let k = il::expr_const(r.below(4), g.1);
                 b.assign(il::scalar(g.0.clone(), g.1), k);
             }
+        }
+        // instruction-index gaps: the block lost an instruction through remove_instruction
+        if gaps && b.instructions().len() >= 2 && r.chance(1, 2) {
+            let k = r.below(b.instructions().len() as u64) as usize;
+            let idx = b.instructions()[k].index();
+            b.remove_instruction(idx).unwrap();
         }
         for i in b.instructions_mut() {
             i.set_address(Some(addr));
@@ -341,11 +360,12 @@ fn gen_case(seed: u64, idx: u64) -> Case {
     let mut rng = Rng::for_case(seed, idx);
     let r = &mut rng;
     let guard_only = r.chance(1, 4);
-    let intrinsics = r.chance(1, 5);
+    let intrinsics = r.chance(1, 3);
+    let gaps = r.chance(1, 3);
     let shape = if guard_only && r.chance(1, 2) { 0 } else { r.below(12) };
     let p = pools(r, guard_only, intrinsics);
     let (sk, shape_name) = skeleton(r, shape);
-    let f = build(r, &p, &sk, 0x100 * (1 + idx % 7));
+    let f = build(r, &p, &sk, 0x100 * (1 + idx % 7), gaps);
     let obs = observe(|| falcon::transformation::ssa_transformation(&f));
 
     let mut it = Interner::new();
@@ -419,6 +439,17 @@ fn gen_case(seed: u64, idx: u64) -> Case {
     if reach.len() < sk.len() { tags.push("unreachable-block".into()); }
     if guard_only { tags.push("guard-only-scalar".into()); }
     if intrinsics { tags.push("intrinsics".into()); }
+    {
+        let g = f.control_flow_graph();
+        if g.blocks().iter().any(|b| b.instructions().iter().enumerate().any(|(k, i)| i.index() != k)) {
+            tags.push("index-gap".into());
+        }
+        let declared = g.blocks().iter().flat_map(|b| b.instructions().iter()).any(|i| match i.operation() {
+            il::Operation::Intrinsic { intrinsic } => intrinsic.written_expressions().is_some(),
+            _ => false,
+        });
+        if declared { tags.push("declared-intrinsic".into()); }
+    }
     if sk.iter().enumerate().any(|(h, ts)| ts.contains(&h)) { tags.push("self-loop".into()); }
     if sk.iter().any(|ts| ts.contains(&0)) { tags.push("loop-through-entry".into()); }
     if joins > 0 { tags.push("join".into()); }
